@@ -482,6 +482,26 @@ func (vc *VC) contractCall(fr *Frame, st *State, callee *ssa.Function, cc *FuncC
 	vc.frameFr = nil
 	vc.frameHidePkg = ""
 	vc.havocCalleeEvents(st, cc)
+	// a callee that may write a field some waiter depends on leaves a wake-up pending
+	{
+		waited := vc.eng.waitedSVNames()
+		pending := cc.ModifiesAll
+		for _, m := range cc.Modifies {
+			for _, k := range vc.modTargetSVs(callee, m) {
+				if waited[k] {
+					pending = true
+				}
+			}
+		}
+		if pending && vc.inSpec == 0 {
+			vc.svDeclare("G_dirty", "Bool")
+			if ensuresClean(cc) {
+				st.vars["G_dirty"] = vc.fresh("Bool", "havoc_dirty") // constrained by the callee's postcondition
+			} else {
+				st.vars["G_dirty"] = "true"
+			}
+		}
+	}
 	nres := callee.Signature.Results().Len()
 	res := make([]string, nres)
 	for i := 0; i < nres; i++ {
@@ -1103,4 +1123,14 @@ func (vc *VC) havocCalleeEvents(st *State, cc *FuncContract) {
 			st.vars[k] = na
 		}
 	}
+}
+
+// ensuresClean: the callee's contract itself says that it leaves no pending wake-up (!dirty()).
+func ensuresClean(cc *FuncContract) bool {
+	for _, e := range cc.Ensures {
+		if strings.Contains(e, "!dirty()") {
+			return true
+		}
+	}
+	return false
 }
